@@ -2,6 +2,7 @@ package tr
 
 import (
 	"go/ast"
+	"go/build"
 	"go/importer"
 	"go/parser"
 	"go/token"
@@ -16,6 +17,9 @@ import (
 // module are parsed from <root>, the standard library is type-checked from GOROOT source,
 // third-party imports become empty packages — a function that needs them is not translatable).
 type Pkg struct {
+	Root  string // directory of the module
+	Mod   string // module path
+	Path  string // import path of this package
 	Fset  *token.FileSet
 	Types *types.Package
 	Info  *types.Info
@@ -52,30 +56,30 @@ func (im *imp) Import(path string) (*types.Package, error) {
 	return p, nil
 }
 
-// files whose name contains "verif" are verification hooks (build tag verif), not the code
-func (im *imp) check(rel, path string) (*types.Package, *types.Info, []*ast.File) {
-	dir := filepath.Join(im.root, rel)
-	pkgs, _ := parser.ParseDir(im.fset, dir, func(fi os.FileInfo) bool {
-		n := fi.Name()
-		return !strings.HasSuffix(n, "_test.go") && !strings.Contains(n, "verif")
-	}, 0)
-	var files []*ast.File
-	var pnames []string
-	for n := range pkgs {
-		if !strings.HasSuffix(n, "_test") {
-			pnames = append(pnames, n)
+// goFiles selects the files of a directory the way the go tool does without build tags
+// (so the `//go:build verif` hooks are left out, *_test.go too).
+func goFiles(dir string) []string {
+	var names []string
+	if bp, err := build.Default.ImportDir(dir, 0); err == nil {
+		names = append(append(names, bp.GoFiles...), bp.CgoFiles...)
+	} else if ents, err2 := os.ReadDir(dir); err2 == nil { // e.g. several packages in one directory
+		for _, e := range ents {
+			n := e.Name()
+			if strings.HasSuffix(n, ".go") && !strings.HasSuffix(n, "_test.go") && !strings.Contains(n, "verif") {
+				names = append(names, n)
+			}
 		}
 	}
-	sort.Strings(pnames)
-	if len(pnames) > 0 {
-		p := pkgs[pnames[0]]
-		names := []string{}
-		for fn := range p.Files {
-			names = append(names, fn)
-		}
-		sort.Strings(names)
-		for _, fn := range names {
-			files = append(files, p.Files[fn])
+	sort.Strings(names)
+	return names
+}
+
+func (im *imp) check(rel, path string) (*types.Package, *types.Info, []*ast.File) {
+	dir := filepath.Join(im.root, rel)
+	var files []*ast.File
+	for _, n := range goFiles(dir) {
+		if f, err := parser.ParseFile(im.fset, filepath.Join(dir, n), nil, 0); f != nil && err == nil {
+			files = append(files, f)
 		}
 	}
 	info := &types.Info{Types: map[ast.Expr]types.TypeAndValue{}, Uses: map[*ast.Ident]types.Object{}, Defs: map[*ast.Ident]types.Object{}, Selections: map[*ast.SelectorExpr]*types.Selection{}}
@@ -97,7 +101,7 @@ func Load(root, mod, rel string) *Pkg {
 		path = mod + "/" + rel
 	}
 	tp, info, files := im.check(rel, path)
-	p := &Pkg{Fset: fset, Types: tp, Info: info, Files: files, Decls: map[string]*ast.FuncDecl{}}
+	p := &Pkg{Root: root, Mod: mod, Path: path, Fset: fset, Types: tp, Info: info, Files: files, Decls: map[string]*ast.FuncDecl{}}
 	for _, f := range files {
 		for _, d := range f.Decls {
 			fd, ok := d.(*ast.FuncDecl)
@@ -108,6 +112,19 @@ func Load(root, mod, rel string) *Pkg {
 		}
 	}
 	return p
+}
+
+// LoadImport loads another package by import path: a package of the same module from its
+// directory, anything else from GOROOT/src (the standard library).
+func (p *Pkg) LoadImport(path string) *Pkg {
+	if path == p.Mod || strings.HasPrefix(path, p.Mod+"/") {
+		rel := strings.TrimPrefix(strings.TrimPrefix(path, p.Mod), "/")
+		if rel == "" {
+			rel = "."
+		}
+		return Load(p.Root, p.Mod, rel)
+	}
+	return Load(filepath.Join(build.Default.GOROOT, "src", filepath.FromSlash(path)), path, ".")
 }
 
 // DeclName is "F" for a function and "T.M" for a method of T or *T.
